@@ -39,12 +39,15 @@ type Engine struct {
 	families      map[string]int
 	multiWait     int
 	degraded      []string // reasons why the tie itself no longer covers what it claims
+	Caps          Caps     // park-point classes under control (probe.go)
+	relabelled    []string // sites whose first-reach position was not their protocol meaning (corrected)
+	skippedCtl    map[string]int
 }
 
 func NewEngine(e *hk.Env) *Engine {
 	return &Engine{E: e, ST: NewSiteTable(), Rng: e.Rng.Fork(), MaxAcceptEvents: 64, MaxAcceptLanes: 3,
 		violsByFamily: map[string]int{}, histories: map[string]int{}, unreached: map[string]int{}, reached: map[string]int{},
-		maxConc: map[int]int{}, families: map[string]int{}}
+		maxConc: map[int]int{}, families: map[string]int{}, skippedCtl: map[string]int{}}
 }
 
 // Skip reports whether a scenario must not run (family gave up after repeated violations, the
@@ -126,9 +129,18 @@ func (en *Engine) WriteStats() {
 	s["park_points_reached"] = en.reached
 	s["park_points_unreached"] = en.unreached
 	s["max_concurrency_by_lanesize"] = en.maxConc
-	q, w, p := en.ST.Counts()
-	s["done_sites"] = map[string]int{"startQueue": q, "startWorker": w, "PushTask": p, "calls_from_unknown_lines": en.ST.Drift()}
-	s["done_sites_as_expected"] = en.ST.Expected()
+	s["context_call_sites"] = en.ST.Describe()
+	have, lost := en.Caps.list()
+	s["park_point_classes_controlled"] = have
+	if len(lost) > 0 {
+		// NOT a defect of the code: the way it consults its context leaves the gate fewer places to park goroutines;
+		// the scenarios that need them were skipped, the stress families stand in for the forced schedules
+		s["schedule_control_reduced"] = lost
+		s["scenarios_skipped_for_lack_of_control"] = en.skippedCtl
+	}
+	if len(en.relabelled) > 0 {
+		s["sites_relabelled_by_probe"] = en.relabelled
+	}
 	s["violations_by_family"] = en.violsByFamily
 	s["aborted_after_stuck_goroutines"] = en.aborted
 	s["shutdowns_with_concurrent_wait_callers"] = en.multiWait
@@ -151,12 +163,8 @@ func (en *Engine) Degraded() []string {
 	if en.aborted || nv > 0 || en.Only != "" {
 		return nil
 	}
-	if !en.ST.Expected() {
-		q, w, p := en.ST.Counts()
-		d = append(d, fmt.Sprintf("context call sites reached on a live context: startQueue=%d startWorker=%d PushTask=%d, expected 3/2/2 (the park points mean something else now)", q, w, p))
-	}
 	if n := en.ST.Drift(); n > 0 {
-		d = append(d, fmt.Sprintf("%d context calls on a live context from lines the calibration run never reached", n))
+		d = append(d, fmt.Sprintf("%d context calls on a live context from sites the calibration run never reached", n))
 	}
 	for label, miss := range en.unreached {
 		if en.reached[label] == 0 && !knownDead[label] {
@@ -246,35 +254,52 @@ func (en *Engine) waitParked(r *Run, site string, label string) bool {
 
 // ---------------------------------------------------------------- calibration
 
-// Calibrate drives a 2x1 lane through every path so that all Done() call sites are seen, then freezes the table.
+// Calibrate drives a 2x1 lane through every path - including a FULL lane, so that a slow path of PushTask is
+// seen - while the site table learns which functions are the worker / queue / API functions and where they consult
+// the context; then it freezes the table, probes what every site means (probe.go) and fixes the capabilities.
 func (en *Engine) Calibrate() {
-	r := NewRun("calibrate", en.ST, 2, 1)
+	r := NewRun("calibrate", en.ST, calibLanes, 1)
 	r.Start(10 * time.Second)
-	pins, _ := en.PinAll(r, func(int) int { return 0 })
-	a := r.NewTask(false, 0, false)
-	r.Push(a, 0) // taken by queue 0, both workers busy: reaches the blocking offer
-	WaitUntil(time.Second, func() bool { return r.G.Hits()["Q2"] > 0 })
+	pins, _ := en.PinAll(r, func(int) int { return 0 }) // the second pin finds worker 0 busy: blocking offer
+	for l := 0; l < calibLanes; l++ {
+		r.Push(r.NewTask(false, 0, false), l) // held by queue l (every worker busy): blocking offer
+		r.Push(r.NewTask(false, 0, false), l) // buffered
+	}
+	r.PendingSettles(2*calibLanes, time.Second)
+	blocked := r.PushAsync(r.NewTask(false, 0, false), 0) // lane 0 is full: PushTask's blocking path
+	time.Sleep(2 * time.Millisecond)
 	for _, t := range pins {
 		t.Release()
 	}
-	WaitUntil(time.Second, func() bool { return r.Finished(a) })
-	b := r.NewTask(false, 0, false)
-	r.Push(b, 1)
-	WaitUntil(time.Second, func() bool { return r.Finished(b) })
+	WaitUntil(time.Second, blocked.Done)
+	r.PendingSettles(0, time.Second)
+	for l := 0; l < calibLanes; l++ {
+		t := r.NewTask(false, 0, false)
+		r.Push(t, l)
+		WaitUntil(time.Second, func() bool { return r.Finished(t) })
+	}
 	time.Sleep(time.Millisecond)
+	en.ST.Freeze() // before the cancel: only calls on the live context are sites
+	workerEntry = en.ST.WorkerEntry()
 	r.Cancel(context.Canceled)
 	r.G.Open()
 	r.ReleaseAll()
 	r.Wait(LiveBound)
 	r.Leaks()
-	en.ST.Freeze()
 	en.E.Case("HS", r.History())
 	en.histories["HS"]++
 	en.events += r.Events()
 	if r.stuck.Load() {
 		en.aborted = true
 		en.E.Case("VIOL", "calibrate", "wait-did-not-return-or-goroutines-left", "::", r.History())
+		return
 	}
+	if sw := strings.Split(os.Getenv("TL_TEST_SWAP"), ","); len(sw) == 2 {
+		en.ST.Swap(sw[0], sw[1]) // self-test of the probes: mislabel two sites on purpose, Probe must put them right
+	}
+	var deg []string
+	en.Caps, deg = en.Probe()
+	en.degraded = append(en.degraded, deg...)
 }
 
 func sname(parts ...any) string {
